@@ -872,7 +872,7 @@ func (x *exec) ghostAfterCall(st *State, ins *ssa.Call, res Val) {
 	name := x.callDesc(ins)
 	ord := x.callOrdinal(fn, ins)
 	for _, g := range ct.Ghost {
-		if g.Callee != name || g.Ord != ord {
+		if g.AtReturn || g.Callee != name || g.Ord != ord {
 			continue
 		}
 		nq := 0
@@ -885,45 +885,7 @@ func (x *exec) ghostAfterCall(st *State, ins *ssa.Call, res Val) {
 		} else if res != nil && sig.Results().Len() == 1 {
 			se.vars["result0"] = specVal{V: res, T: sig.Results().At(0).Type()}
 		}
-		rhs, ok := se.rval(se.evalRV(g.RHS.Expr)).(Term)
-		if !ok {
-			if p, isP := se.rval(se.evalRV(g.RHS.Expr)).(*PtrV); isP {
-				rhs = x.ptrTerm(p)
-			} else {
-				se.fail("right-hand side is not a scalar or set")
-			}
-		}
-		lhs := g.LHS.Expr
-		var key *Term
-		if ix, isIdx := lhs.(*ast.IndexExpr); isIdx {
-			k, ok := se.rval(se.evalRV(ix.Index)).(Term)
-			if !ok {
-				se.fail("index is not a scalar")
-			}
-			key = &k
-			lhs = ix.X
-		}
-		locs := x.modLocs(se, &Clause{Expr: lhs, Src: g.LHS.Src})
-		if len(locs) != 1 {
-			se.fail("left-hand side does not denote one ghost location")
-		}
-		l := locs[0]
-		if !strings.HasPrefix(l.key, "G.") && !strings.HasPrefix(l.key, "GV.") {
-			se.fail("left-hand side is not ghost state")
-		}
-		cur := x.getHeap(st, l.key, l.sort)
-		switch {
-		case l.ghostVar && key == nil:
-			x.setHeap(st, l.key, rhs, nil)
-		case l.ghostVar:
-			x.setHeap(st, l.key, Store(cur, *key, rhs), nil)
-		case l.obj == nil:
-			se.fail("left-hand side names every object's field")
-		case key == nil:
-			x.setHeap(st, l.key, Store(cur, *l.obj, rhs), l.obj)
-		default:
-			x.setHeap(st, l.key, Store(cur, *l.obj, Store(Select(cur, *l.obj), *key, rhs)), l.obj)
-		}
+		x.execGhost(st, g, se)
 	}
 }
 
@@ -939,4 +901,47 @@ func (x *exec) callOrdinal(fn *ssa.Function, ins *ssa.Call) int {
 		}
 	}
 	return ord
+}
+
+// execGhost performs one ghost assignment in the environment se.
+func (x *exec) execGhost(st *State, g *GhostStmt, se *specEnv) {
+	rhs, ok := se.rval(se.evalRV(g.RHS.Expr)).(Term)
+	if !ok {
+		if p, isP := se.rval(se.evalRV(g.RHS.Expr)).(*PtrV); isP {
+			rhs = x.ptrTerm(p)
+		} else {
+			se.fail("right-hand side is not a scalar or set")
+		}
+	}
+	lhs := g.LHS.Expr
+	var key *Term
+	if ix, isIdx := lhs.(*ast.IndexExpr); isIdx {
+		k, ok := se.rval(se.evalRV(ix.Index)).(Term)
+		if !ok {
+			se.fail("index is not a scalar")
+		}
+		key = &k
+		lhs = ix.X
+	}
+	locs := x.modLocs(se, &Clause{Expr: lhs, Src: g.LHS.Src})
+	if len(locs) != 1 {
+		se.fail("left-hand side does not denote one ghost location")
+	}
+	l := locs[0]
+	if !strings.HasPrefix(l.key, "G.") && !strings.HasPrefix(l.key, "GV.") {
+		se.fail("left-hand side is not ghost state")
+	}
+	cur := x.getHeap(st, l.key, l.sort)
+	switch {
+	case l.ghostVar && key == nil:
+		x.setHeap(st, l.key, rhs, nil)
+	case l.ghostVar:
+		x.setHeap(st, l.key, Store(cur, *key, rhs), nil)
+	case l.obj == nil:
+		se.fail("left-hand side names every object's field")
+	case key == nil:
+		x.setHeap(st, l.key, Store(cur, *l.obj, rhs), l.obj)
+	default:
+		x.setHeap(st, l.key, Store(cur, *l.obj, Store(Select(cur, *l.obj), *key, rhs)), l.obj)
+	}
 }
